@@ -319,5 +319,14 @@ def op_db(f):
     return " ; ".join(hist_step(db, s, False) for s in ["L:" + f[1], "D"])
 
 
+def op_histq(f):
+    """the same without the reader (for streams that are not about atomicity)"""
+    p = P()
+    db = p["Database"]()
+    steps = [s for s in f[1:] if s != ""]
+    return " ; ".join(hist_step(db, s, False) for s in steps)
+
+
 impl.OPS["hist"] = op_hist
+impl.OPS["histq"] = op_histq
 impl.OPS["db"] = op_db
